@@ -13,6 +13,7 @@ use crate::common::*;
 use crate::dict::*;
 use sudachi::analysis::created::CreatedWords;
 use sudachi::analysis::lattice::Lattice;
+use sudachi::analysis::mlist::MorphemeList;
 use sudachi::analysis::node::{LatticeNode, RightId};
 use sudachi::analysis::stateful_tokenizer::StatefulTokenizer;
 use sudachi::analysis::stateless_tokenizer::DictionaryAccess;
@@ -422,7 +423,7 @@ fn node_tuple(n: &Node) -> String {
     format!("{}:{}:{}:{}", n.left_id(), n.right_id(), n.cost(), n.word_id().word())
 }
 
-struct Ctx { wd: Workdir, variant: String }
+struct Ctx { wd: Workdir, variant: String, variant2: String }
 
 /// human-readable form of a configuration (for the evidence file)
 fn describe(spec: &Spec) -> String {
@@ -657,49 +658,145 @@ fn run_load(run: &mut Run, ctx: &Ctx, idx: usize, rng: &mut Rng, spec: &Spec) {
                 }
             }
             // ---- oracle 4: analysis never indexes outside the matrix
-            let mut fired = false;
-            let bad_ids = viol.iter().any(|x| x.field == "leftId" || x.field == "rightId");
-            if !cfg!(debug_assertions) && bad_ids {
-                // release build: the read outside the matrix is undefined behaviour, it cannot be observed safely
-                run.bump("analysis:skipped-in-release(accepted-bad-id)");
-            }
-            for text in TEXTS {
-                if !cfg!(debug_assertions) && bad_ids { break; }
-                let r = catch(|| {
-                    let mut tok = StatefulTokenizer::new(&dic, Mode::C);
-                    tok.reset().push_str(text);
-                    let r = tok.do_tokenize();
-                    let rows = tok.verif_lattice().verif_rows();
-                    (r.is_ok(), rows)
-                });
-                match r {
-                    Err(p) => {
-                        run.bump("analysis:PANIC");
-                        let idv = viol.iter().find(|x| x.field == "leftId" || x.field == "rightId");
-                        match idv {
-                            Some(x) => run.fail(idx, &format!("c20:analysis:{}", x.key()), &format!("tokenising {:?} with the accepted configuration panicked ({}); {} [{}]", text, p.chars().take(80).collect::<String>(), x.what, spec.tag)),
-                            None => run.fail(idx, "c20:analysis:unexplained", &format!("tokenising {:?} with the accepted configuration panicked: {} [{}]", text, p.chars().take(120).collect::<String>(), spec.tag)),
-                        }
-                        fired = true;
-                        break;
-                    }
-                    Ok((ok, rows)) => {
-                        run.bump(if ok { "analysis:ok" } else { "analysis:err" });
-                        // every node of the lattice carries ids inside the matrix (what a release build would read)
-                        for row in &rows { for &(_, _, l, r_, _, raw, _, _, _) in row {
-                            if (l as usize) >= nr || (r_ as usize) >= nl {
-                                let idv = viol.iter().find(|x| x.field == "leftId" || x.field == "rightId");
-                                let k = idv.map(|x| x.key()).unwrap_or_else(|| "unexplained".into());
-                                run.fail(idx, &format!("c20:analysis:{}", k), &format!("lattice of {:?} holds a node (word id {:#x}) with left {} right {} outside the {}x{} matrix [{}]", text, raw, l, r_, nl, nr, spec.tag));
-                                fired = true;
-                            }
-                        } }
-                    }
-                }
-            }
-            if viol.iter().any(|x| x.field == "leftId" || x.field == "rightId") && !fired { run.bump("bad-id-accepted-but-not-exercised-by-texts"); }
+            analysis_oracle(run, idx, rng, &dic, nl, nr, &viol, &spec.tag, &[]);
         }
     }
+}
+
+
+/// texts a long-lived analyser has seen before: longer and shorter than TEXTS, empty, rejected (too long)
+fn warm_texts(rng: &mut Rng) -> Vec<String> {
+    let n = rng.range(1, 4);
+    let mut v = vec![];
+    for _ in 0..n {
+        v.push(match rng.below(8) {
+            0 => String::new(),
+            1 => "!".to_string(),
+            2 => "東京ア!x7いう!漢aえエ漢東京あいう".repeat(rng.range(1, 3)),
+            3 => "a".repeat(49_200),                       // rejected: longer than the input limit
+            4 => "漢".repeat(16_400),                      // rejected as well (49 200 bytes)
+            5 => "ゆよ".to_string(),
+            6 => "アイウ123えお".to_string(),
+            _ => "う京".to_string(),
+        });
+    }
+    v
+}
+
+type Rows = Vec<Vec<(usize, usize, u16, u16, i16, u32, i32, u16, u16)>>;
+
+fn strip_rows(mut rows: Rows) -> Rows {
+    while rows.last().map(|r| r.is_empty()).unwrap_or(false) { rows.pop(); }
+    rows
+}
+
+/// Oracle of "no accepted configuration can make analysis index outside the connection matrix": the texts
+/// make every provider fire; every second case runs them on ONE StatefulTokenizer + ONE MorphemeList that
+/// analysed 1-4 other texts before (and keep being reused from text to text), the way long-lived analysers are
+/// used; the verdict must not depend on that history, and the recycled analysis must equal the fresh one.
+fn analysis_oracle(run: &mut Run, idx: usize, rng: &mut Rng, dic: &JapaneseDictionary, nl: usize, nr: usize, viol: &[Violation], tag: &str, extra: &[String]) {
+    let idv = viol.iter().find(|x| x.field == "leftId" || x.field == "rightId" || x.field == "maxLength");
+    let bad_ids = idv.is_some();
+    if !cfg!(debug_assertions) && bad_ids {
+        // release build: the read outside the matrix is undefined behaviour, it cannot be observed safely
+        run.bump("analysis:skipped-in-release(accepted-bad-id)");
+        return;
+    }
+    let recycled = idx % 2 == 1;
+    run.bump(if recycled { "analysis:recycled-analyser" } else { "analysis:new-analyser" });
+    let mut texts: Vec<String> = TEXTS.iter().map(|s| s.to_string()).collect();
+    texts.extend(extra.iter().cloned());
+    let mut fired = false;
+    let mut long_lived: Option<(StatefulTokenizer<&JapaneseDictionary>, MorphemeList<&JapaneseDictionary>)> = None;
+    if recycled {
+        let warm = warm_texts(rng);
+        let r = catch(|| {
+            let mut tok = StatefulTokenizer::new(dic, Mode::C);
+            let mut ml = MorphemeList::empty(dic);
+            for wt in &warm {
+                tok.reset().push_str(wt);
+                if tok.do_tokenize().is_ok() { let _ = ml.collect_results(&mut tok); }
+            }
+            (tok, ml)
+        });
+        match r {
+            Ok(x) => long_lived = Some(x),
+            Err(p) => {
+                run.bump("analysis:PANIC");
+                match idv {
+                    Some(x) => run.fail(idx, &format!("c20:analysis:{}", x.key()), &format!("warm-up analyses {:?} with the accepted configuration panicked ({}); {} [{}]", warm.iter().map(|w| w.chars().take(12).collect::<String>()).collect::<Vec<_>>(), p.chars().take(80).collect::<String>(), x.what, tag)),
+                    None => run.fail(idx, "c20:analysis:unexplained", &format!("warm-up analyses with the accepted configuration panicked: {} [{}]", p.chars().take(120).collect::<String>(), tag)),
+                }
+                return;
+            }
+        }
+    }
+    for text in &texts {
+        // the reference: a new tokenizer and a new list
+        let fresh = catch(|| {
+            let mut tok = StatefulTokenizer::new(dic, Mode::C);
+            tok.reset().push_str(text);
+            let r = tok.do_tokenize();
+            let rows = strip_rows(tok.verif_lattice().verif_rows());
+            let mut ml = MorphemeList::empty(dic);
+            let bounds: Vec<(usize, usize)> = if r.is_ok() && ml.collect_results(&mut tok).is_ok() { ml.iter().map(|m| (m.begin(), m.end())).collect() } else { vec![] };
+            (r.is_ok(), rows, bounds)
+        });
+        let observed = match long_lived.take() {
+            None => fresh.clone(),
+            Some((mut tok, mut ml)) => {
+                let r = catch(move || {
+                    tok.reset().push_str(text);
+                    let r = tok.do_tokenize();
+                    let rows = strip_rows(tok.verif_lattice().verif_rows());
+                    let bounds: Vec<(usize, usize)> = if r.is_ok() && ml.collect_results(&mut tok).is_ok() { ml.iter().map(|m| (m.begin(), m.end())).collect() } else { vec![] };
+                    ((r.is_ok(), rows, bounds), (tok, ml))
+                });
+                match r {
+                    Ok((obs, ll)) => { long_lived = Some(ll); Ok(obs) }
+                    Err(p) => Err(p),
+                }
+            }
+        };
+        if recycled {
+            match (&fresh, &observed) {
+                (Ok(a), Ok(b)) if a != b => {
+                    run.fail(idx, "c20:history:recycled-differs", &format!("analysis of {:?} on a recycled tokenizer/list differs from a new one: ok {} vs {}, {} vs {} lattice rows, morphemes {:?} vs {:?} [{}]", text, b.0, a.0, b.1.len(), a.1.len(), b.2, a.2, tag));
+                    fired = true;
+                }
+                (Ok(_), Err(p)) => {
+                    if idv.is_none() {
+                        run.fail(idx, "c20:history:recycled-panics", &format!("analysis of {:?} panics only on a recycled tokenizer/list: {} [{}]", text, p.chars().take(100).collect::<String>(), tag));
+                        fired = true;
+                    }
+                }
+                _ => {}
+            }
+        }
+        match observed {
+            Err(p) => {
+                run.bump("analysis:PANIC");
+                match idv {
+                    Some(x) => run.fail(idx, &format!("c20:analysis:{}", x.key()), &format!("tokenising {:?} with the accepted configuration panicked ({}); {} [{}]", text, p.chars().take(80).collect::<String>(), x.what, tag)),
+                    None => run.fail(idx, "c20:analysis:unexplained", &format!("tokenising {:?} with the accepted configuration panicked: {} [{}]", text, p.chars().take(120).collect::<String>(), tag)),
+                }
+                fired = true;
+                break;
+            }
+            Ok((ok, rows, _)) => {
+                run.bump(if ok { "analysis:ok" } else { "analysis:err" });
+                // every node of the lattice carries ids inside the matrix (what a release build would read)
+                for row in &rows { for &(_, _, l, r_, _, raw, _, _, _) in row {
+                    if (l as usize) >= nr || (r_ as usize) >= nl {
+                        let k = idv.map(|x| x.key()).unwrap_or_else(|| "unexplained".into());
+                        run.fail(idx, &format!("c20:analysis:{}", k), &format!("lattice of {:?} holds a node (word id {:#x}) with left {} right {} outside the {}x{} matrix [{}]", text, raw, l, r_, nl, nr, tag));
+                        fired = true;
+                    }
+                } }
+            }
+        }
+    }
+    if bad_ids && !fired { run.bump("bad-id-accepted-but-not-exercised-by-texts"); }
 }
 
 fn run_lat(run: &mut Run, idx: usize, rng: &mut Rng) {
@@ -749,6 +846,632 @@ fn run_lat(run: &mut Run, idx: usize, rng: &mut Rng) {
     }
 }
 
+
+// ---------------------------------------------------------------------------------------------
+// rload: the settings as serde_json hands them over (every parameter of every bundled plugin, well
+// typed / ill typed / out of range), user dictionaries compiled against ANOTHER system dictionary
+
+/// one JSON value of a plugin's settings
+#[derive(Clone, Debug, PartialEq)]
+enum Jv { Absent, Null, Int(i128), Float(&'static str), Bool(bool), Str(String), Strs(Vec<String>), Other(&'static str) }
+
+impl Jv {
+    fn json(&self, key: &str) -> String {
+        let v = match self {
+            Jv::Absent => return String::new(),
+            Jv::Null => "null".to_string(),
+            Jv::Int(x) => x.to_string(),
+            Jv::Float(t) => t.to_string(),
+            Jv::Bool(b) => b.to_string(),
+            Jv::Str(t) => serde_json::to_string(t).unwrap(),
+            Jv::Strs(v) => json_str_list(v),
+            Jv::Other(t) => t.to_string(),
+        };
+        format!(r#","{}":{}"#, key, v)
+    }
+    fn wire(&self) -> String {
+        match self {
+            Jv::Absent => "-".into(), Jv::Null => "N".into(), Jv::Int(x) => format!("I{}", x), Jv::Float(_) => "F".into(), Jv::Bool(_) => "B".into(),
+            Jv::Str(t) => format!("S{}", hex(t.as_bytes())),
+            Jv::Strs(v) => format!("L{}", v.iter().map(|x| format!("x{}", hex(x.as_bytes()))).collect::<Vec<_>>().join("/")),
+            Jv::Other(_) => "O".into(),
+        }
+    }
+    /// the value as an integer that fits [lo, hi], if it is one
+    fn int_in(&self, lo: i128, hi: i128) -> Option<i128> { match self { Jv::Int(x) if *x >= lo && *x <= hi => Some(*x), _ => None } }
+    fn strs(&self) -> Option<&Vec<String>> { match self { Jv::Strs(v) => Some(v), _ => None } }
+}
+
+const U64MAX: i128 = u64::MAX as i128;
+
+#[derive(Clone, Debug)]
+enum ROov {
+    Simple { pos: Jv, l: Jv, r: Jv, c: Jv, mode: Jv },
+    Regex { pos: Jv, l: Jv, r: Jv, c: Jv, mode: Jv, maxlen: Jv, bnd: Jv, alias: bool },
+    Mecab { lines: Vec<UnkLine>, mode: Jv },
+}
+#[derive(Clone, Debug)]
+enum RIn { Yomi { lb: Jv, rb: Jv, ml: Jv }, Prolonged { marks: Jv, repl: Jv } }
+#[derive(Clone, Debug)]
+enum RPath { Katakana { pos: Jv, minlen: Jv }, Numeric { en: Jv } }
+/// a user dictionary compiled against a system dictionary with a `big` x `big` matrix
+#[derive(Clone, Debug)]
+struct UDicSpec { big: usize, own_pos: Vec<[String; 6]>, words: Vec<(i64, i64)> }
+
+#[derive(Clone, Debug)]
+struct RSpec { nl: usize, nr: usize, matrix: Matrix, inh: Vec<Vec<(i64, i64)>>, input: Vec<RIn>, oov: Vec<ROov>, path: Vec<RPath>, users: Vec<UDicSpec>, tag: String }
+
+/// largest repetition bound the model accepts for IgnoreYomigana (the real limit is the size limit of the regex
+/// crate, 27 863..27 866 for the bracket sets used here; values between 20 000 and 30 000 are never generated)
+const YOMI_MAX: usize = 25_000;
+
+fn mode_ok(m: &Jv) -> Option<bool> { match m { Jv::Absent => Some(false), Jv::Str(s) if s == "allow" => Some(true), Jv::Str(s) if s == "forbid" => Some(false), _ => None } }
+
+fn ill(src: &'static str, field: &'static str, v: &Jv, want: &str) -> Violation {
+    Violation { src, field, class: "ill-typed", what: format!("{} {} = {:?} is not {}", src, field, v, want) }
+}
+
+/// requirements of the property for a raw configuration, computed from the configuration alone
+fn rviolations(spec: &RSpec, dict_pos: &[[String; 6]]) -> Vec<Violation> {
+    let (nl, nr) = (spec.nl, spec.nr);
+    let mut v = vec![];
+    for (k, pairs) in spec.inh.iter().enumerate() {
+        for (a, b) in pairs {
+            if let Some(x) = id_violation("inhibit", "pair0", *a, nl, nl, &format!("inhibit plugin {}", k)) { v.push(x); }
+            if let Some(x) = id_violation("inhibit", "pair1", *b, nr, nr, &format!("inhibit plugin {}", k)) { v.push(x); }
+        }
+    }
+    for p in &spec.input {
+        match p {
+            RIn::Yomi { lb, rb, ml } => {
+                for (f, b) in [("leftBrackets", lb), ("rightBrackets", rb)] {
+                    if !b.strs().map(|v| v.iter().all(|s| s.chars().count() == 1)).unwrap_or(false) { v.push(ill("yomigana", f, b, "a list of single characters")); }
+                }
+                if ml.int_in(0, U64MAX).is_none() { v.push(ill("yomigana", "maxYomiganaLength", ml, "an unsigned integer")); }
+            }
+            RIn::Prolonged { marks, repl } => {
+                if !marks.strs().map(|v| v.iter().all(|s| s.chars().count() == 1)).unwrap_or(false) { v.push(ill("prolonged", "prolongedSoundMarks", marks, "a list of single characters")); }
+                if !matches!(repl, Jv::Absent | Jv::Null | Jv::Str(_)) { v.push(ill("prolonged", "replacementSymbol", repl, "a string")); }
+            }
+        }
+    }
+    let mut known: Vec<String> = dict_pos.iter().map(|p| p.join(",")).collect();
+    let typed = |known: &mut Vec<String>, v: &mut Vec<Violation>, src: &'static str, pos: &Jv, l: &Jv, r: &Jv, c: &Jv, mode: &Jv| {
+        let m = mode_ok(mode);
+        if m.is_none() { v.push(ill(src, "userPOS", mode, "allow or forbid")); }
+        match pos.strs() {
+            None => v.push(ill(src, "pos", pos, "a list of strings")),
+            Some(p) => {
+                let k = pos_key(p);
+                if !(p.len() == 6 && known.contains(&k)) {
+                    if m == Some(true) && p.len() == 6 { known.push(k); }
+                    else { v.push(Violation { src, field: "pos", class: "forbidden-pos", what: format!("POS {} is not in the dictionary and userPOS is not allow (or it has not six components)", k) }); }
+                }
+            }
+        }
+        for (f, x, vd, idim) in [("leftId", l, nl, nr), ("rightId", r, nr, nl)] {
+            match x.int_in(i64::MIN as i128, i64::MAX as i128) {
+                None => v.push(ill(src, f, x, "a 64-bit integer")),
+                Some(i) => if let Some(y) = id_violation(src, f, i as i64, vd, idim, src) { v.push(y); }
+            }
+        }
+        match c.int_in(i64::MIN as i128, i64::MAX as i128) {
+            None => v.push(ill(src, "cost", c, "a 64-bit integer")),
+            Some(i) => if i < -32768 || i > 32767 { v.push(Violation { src, field: "cost", class: "cost-range", what: format!("{} cost {} does not fit i16", src, i) }); }
+        }
+    };
+    for p in &spec.oov {
+        match p {
+            ROov::Simple { pos, l, r, c, mode } => typed(&mut known, &mut v, "simple", pos, l, r, c, mode),
+            ROov::Regex { pos, l, r, c, mode, maxlen, bnd, .. } => {
+                typed(&mut known, &mut v, "regex", pos, l, r, c, mode);
+                if !matches!(maxlen, Jv::Absent) && maxlen.int_in(0, U64MAX).is_none() { v.push(ill("regex", "maxLength", maxlen, "an unsigned integer")); }
+                if !matches!(bnd, Jv::Absent) && !matches!(bnd, Jv::Str(s) if s == "strict" || s == "relaxed") { v.push(ill("regex", "boundaries", bnd, "strict or relaxed")); }
+                // a length that cannot be added to a character offset (texts have at most 49 149 bytes): the later use `offset + max_length` overflows
+                if let Some(m) = maxlen.int_in(0, U64MAX) { if m + 65_536 > U64MAX { v.push(Violation { src: "regex", field: "maxLength", class: "overflow", what: format!("regex maxLength {} cannot be added to a character offset (usize overflow)", m) }); } }
+            }
+            ROov::Mecab { lines, mode } => {
+                let m = mode_ok(mode);
+                if m.is_none() { v.push(ill("unkdef", "userPOS", mode, "allow or forbid")); }
+                let um = if m == Some(true) { UMode::Allow } else { UMode::Forbid };
+                for ln in lines {
+                    if let Some((_, l, r, c, pos)) = &ln.parsed {
+                        let k = pos_key(pos);
+                        if !(pos.len() == 6 && known.contains(&k)) {
+                            if um.allow() && pos.len() == 6 { known.push(k); }
+                            else { v.push(Violation { src: "unkdef", field: "pos", class: "forbidden-pos", what: format!("POS {} is not in the dictionary and userPOS is not allow", k) }); }
+                        }
+                        if let Some(x) = id_violation("unkdef", "leftId", *l, nl, nr, "unk.def") { v.push(x); }
+                        if let Some(x) = id_violation("unkdef", "rightId", *r, nr, nl, "unk.def") { v.push(x); }
+                        if *c < -32768 || *c > 32767 { v.push(Violation { src: "unkdef", field: "cost", class: "cost-range", what: format!("unk.def cost {} does not fit i16", c) }); }
+                    }
+                }
+            }
+        }
+    }
+    for p in &spec.path {
+        match p {
+            RPath::Katakana { pos, minlen } => {
+                match pos.strs() {
+                    None => v.push(ill("katakana", "oovPOS", pos, "a list of strings")),
+                    Some(p) => if !(p.len() == 6 && known.contains(&pos_key(p))) {
+                        v.push(Violation { src: "katakana", field: "pos", class: "forbidden-pos", what: format!("POS {} of JoinKatakanaOov is not in the dictionary", pos_key(p)) });
+                    }
+                }
+                if minlen.int_in(0, U64MAX).is_none() { v.push(ill("katakana", "minLength", minlen, "an unsigned integer")); }
+            }
+            RPath::Numeric { en } => if !matches!(en, Jv::Absent | Jv::Null | Jv::Bool(_)) { v.push(ill("numeric", "enableNormalize", en, "a boolean")); }
+        }
+    }
+    for u in &spec.users {
+        for (l, r) in &u.words {
+            if let Some(x) = id_violation("userdict", "leftId", *l, nl, nr, "user dictionary word") { v.push(x); }
+            if let Some(x) = id_violation("userdict", "rightId", *r, nr, nl, "user dictionary word") { v.push(x); }
+        }
+    }
+    v
+}
+
+fn noun_jv() -> Jv { Jv::Strs(pos_vec(&default_pos()[0])) }
+fn int(x: i128) -> Jv { Jv::Int(x) }
+
+/// values an integer setting is probed with: boundaries of i16/u16/i64/u64 and every other JSON shape
+fn int_shapes() -> Vec<Jv> {
+    vec![int(-1), int(0), int(1), int(32767), int(32768), int(65535), int(65536), int(i64::MAX as i128), int(i64::MAX as i128 + 1),
+         int(U64MAX - 1), int(U64MAX), int(U64MAX + 1), int(i64::MIN as i128), int(i64::MIN as i128 - 1),
+         Jv::Float("1.5"), Jv::Float("1e2"), Jv::Float("0.0"), Jv::Str("1".into()), Jv::Null, Jv::Bool(true), Jv::Other("[1]"), Jv::Other("{}"), Jv::Absent]
+}
+
+fn rbase(rng: &mut Rng, nl: usize, nr: usize, tag: String) -> RSpec {
+    RSpec { nl, nr, matrix: Matrix::random(rng, nl, nr, false), inh: vec![], input: vec![], oov: vec![], path: vec![], users: vec![], tag }
+}
+fn good_simple() -> ROov { ROov::Simple { pos: noun_jv(), l: int(0), r: int(0), c: int(10), mode: Jv::Absent } }
+
+const N_RSHAPES: usize = 23;
+/// directed raw cases: every shape for every numeric / enumerated / list parameter of every bundled plugin
+fn rdirected(k: usize, rng: &mut Rng) -> Option<RSpec> {
+    let shapes = int_shapes();
+    debug_assert_eq!(shapes.len(), N_RSHAPES);
+    // block A: 12 integer fields x 23 shapes
+    let fields = 12;
+    if k < fields * N_RSHAPES {
+        let (f, si) = (k / N_RSHAPES, k % N_RSHAPES);
+        let x = shapes[si].clone();
+        let mut s = rbase(rng, 3, 3, format!("rdirected:int:{}:{}", f, si));
+        let g = good_simple();
+        match f {
+            0 => s.oov.push(ROov::Simple { pos: noun_jv(), l: x, r: int(0), c: int(1), mode: Jv::Absent }),
+            1 => s.oov.push(ROov::Simple { pos: noun_jv(), l: int(0), r: x, c: int(1), mode: Jv::Absent }),
+            2 => s.oov.push(ROov::Simple { pos: noun_jv(), l: int(0), r: int(0), c: x, mode: Jv::Absent }),
+            3 => s.oov.push(ROov::Regex { pos: noun_jv(), l: x, r: int(0), c: int(1), mode: Jv::Absent, maxlen: Jv::Absent, bnd: Jv::Absent, alias: si % 2 == 0 }),
+            4 => s.oov.push(ROov::Regex { pos: noun_jv(), l: int(0), r: x, c: int(1), mode: Jv::Absent, maxlen: Jv::Absent, bnd: Jv::Absent, alias: si % 2 == 0 }),
+            5 => s.oov.push(ROov::Regex { pos: noun_jv(), l: int(0), r: int(0), c: x, mode: Jv::Absent, maxlen: Jv::Absent, bnd: Jv::Absent, alias: si % 2 == 0 }),
+            6 => s.oov.push(ROov::Regex { pos: noun_jv(), l: int(1), r: int(2), c: int(1), mode: Jv::Absent, maxlen: x, bnd: Jv::Absent, alias: false }),
+            7 => s.oov.push(ROov::Regex { pos: noun_jv(), l: int(1), r: int(2), c: int(1), mode: Jv::Absent, maxlen: x, bnd: Jv::Str("relaxed".into()), alias: false }),
+            8 => { s.input.push(RIn::Yomi { lb: Jv::Strs(vec!["(".into(), "（".into()]), rb: Jv::Strs(vec![")".into(), "）".into()]), ml: x }); s.oov.push(g); }
+            9 => { s.path.push(RPath::Katakana { pos: noun_jv(), minlen: x }); s.oov.push(g); }
+            10 => { s.path.push(RPath::Numeric { en: x }); s.oov.push(g); }
+            _ => { s.input.push(RIn::Prolonged { marks: Jv::Strs(vec!["ー".into(), "〜".into()]), repl: x }); s.oov.push(g); }
+        }
+        return Some(s);
+    }
+    let k = k - fields * N_RSHAPES;
+    // block B: further maxLength / maxYomiganaLength / minLength magnitudes
+    let mags: Vec<i128> = vec![2, 6, 7, 31, 32, 33, 1000, 20000, 30000, 100000, u32::MAX as i128, u32::MAX as i128 + 1, i64::MAX as i128 - 1, U64MAX - 2, U64MAX - 5, U64MAX - 6, U64MAX - 7, U64MAX - 100];
+    if k < 3 * mags.len() {
+        let (f, mi) = (k / mags.len(), k % mags.len());
+        let x = int(mags[mi]);
+        let mut s = rbase(rng, 3, 3, format!("rdirected:mag:{}:{}", f, mi));
+        match f {
+            0 => s.oov.push(ROov::Regex { pos: noun_jv(), l: int(0), r: int(0), c: int(1), mode: Jv::Absent, maxlen: x, bnd: if mi % 2 == 0 { Jv::Absent } else { Jv::Str("relaxed".into()) }, alias: false }),
+            1 => { s.input.push(RIn::Yomi { lb: Jv::Strs(vec!["(".into()]), rb: Jv::Strs(vec![")".into()]), ml: x }); s.oov.push(good_simple()); }
+            _ => { s.path.push(RPath::Katakana { pos: noun_jv(), minlen: x }); s.oov.push(good_simple()); }
+        }
+        return Some(s);
+    }
+    let k = k - 3 * mags.len();
+    // block C: enumerations and lists
+    let modes: Vec<Jv> = vec![Jv::Absent, Jv::Str("allow".into()), Jv::Str("forbid".into()), Jv::Str("Allow".into()), Jv::Str("ALLOW".into()), Jv::Str("".into()), Jv::Str("yes".into()), Jv::Null, Jv::Bool(true), int(1), Jv::Strs(vec!["allow".into()]), Jv::Other("{}")];
+    if k < 3 * modes.len() {
+        let (f, mi) = (k / modes.len(), k % modes.len());
+        let m = modes[mi].clone();
+        let mut s = rbase(rng, 3, 3, format!("rdirected:userPOS:{}:{}", f, mi));
+        let newp = Jv::Strs(new_pos(0));
+        match f {
+            0 => s.oov.push(ROov::Simple { pos: newp, l: int(0), r: int(0), c: int(1), mode: m }),
+            1 => s.oov.push(ROov::Regex { pos: newp, l: int(0), r: int(0), c: int(1), mode: m, maxlen: Jv::Absent, bnd: Jv::Absent, alias: true }),
+            _ => { let mut lines = base_unk(&pos_vec(&default_pos()[0])); lines.push(valid_line("KANJI", 1, 1, 5, &new_pos(0))); s.oov.push(ROov::Mecab { lines, mode: m }); }
+        }
+        return Some(s);
+    }
+    let k = k - 3 * modes.len();
+    let bnds: Vec<Jv> = vec![Jv::Absent, Jv::Str("strict".into()), Jv::Str("relaxed".into()), Jv::Str("Strict".into()), Jv::Str("loose".into()), Jv::Str("".into()), Jv::Null, Jv::Bool(false), int(0), Jv::Strs(vec![]), Jv::Other("{}")];
+    if k < bnds.len() {
+        let mut s = rbase(rng, 3, 3, format!("rdirected:boundaries:{}", k));
+        s.oov.push(ROov::Regex { pos: noun_jv(), l: int(2), r: int(1), c: int(-3), mode: Jv::Absent, maxlen: int(2), bnd: bnds[k].clone(), alias: false });
+        return Some(s);
+    }
+    let k = k - bnds.len();
+    let noun = pos_vec(&default_pos()[0]);
+    let lists: Vec<Jv> = vec![
+        Jv::Strs(noun.clone()), Jv::Strs(noun[..5].to_vec()), Jv::Strs({ let mut p = noun.clone(); p.push("*".into()); p }), Jv::Strs(vec![]), Jv::Strs(new_pos(1)),
+        Jv::Strs(vec!["名詞".into()]), Jv::Str("名詞".into()), Jv::Null, Jv::Absent, Jv::Other(r#"["名詞",1,"一般","*","*","*"]"#), Jv::Other(r#"[["名詞"]]"#), int(0), Jv::Other("{}"),
+    ];
+    if k < 4 * lists.len() {
+        let (f, li) = (k / lists.len(), k % lists.len());
+        let p = lists[li].clone();
+        let mut s = rbase(rng, 3, 3, format!("rdirected:oovPOS:{}:{}", f, li));
+        match f {
+            0 => s.oov.push(ROov::Simple { pos: p, l: int(0), r: int(0), c: int(1), mode: Jv::Str("allow".into()) }),
+            1 => s.oov.push(ROov::Regex { pos: p, l: int(0), r: int(0), c: int(1), mode: Jv::Absent, maxlen: Jv::Absent, bnd: Jv::Absent, alias: li % 2 == 1 }),
+            2 => { s.path.push(RPath::Katakana { pos: p, minlen: int(3) }); s.oov.push(good_simple()); }
+            _ => { // the POS a path-rewrite plugin names may have been registered by an OOV provider, never by a user dictionary
+                s.oov.push(ROov::Simple { pos: Jv::Strs(new_pos(1)), l: int(0), r: int(0), c: int(1), mode: Jv::Str("allow".into()) });
+                s.path.push(RPath::Katakana { pos: p, minlen: int(3) });
+            }
+        }
+        return Some(s);
+    }
+    let k = k - 4 * lists.len();
+    let chars: Vec<Jv> = vec![
+        Jv::Strs(vec!["ー".into()]), Jv::Strs(vec![]), Jv::Strs(vec!["ー".into(), "ー".into()]), Jv::Strs(vec!["ab".into()]), Jv::Strs(vec!["".into()]), Jv::Strs(vec!["e\u{301}".into()]),
+        Jv::Strs(vec!["-".into(), "]".into(), "[".into(), "^".into(), "\\".into()]), Jv::Strs(vec!["&".into(), "~".into(), "-".into(), "&".into()]), Jv::Strs(vec!["👍".into()]),
+        Jv::Str("ー".into()), Jv::Null, Jv::Absent, Jv::Other(r#"["ー",12540]"#), int(12540), Jv::Other("{}"),
+    ];
+    if k < 3 * chars.len() {
+        let (f, ci) = (k / chars.len(), k % chars.len());
+        let c = chars[ci].clone();
+        let mut s = rbase(rng, 3, 3, format!("rdirected:chars:{}:{}", f, ci));
+        match f {
+            0 => s.input.push(RIn::Prolonged { marks: c, repl: if ci % 3 == 0 { Jv::Str("".into()) } else { Jv::Absent } }),
+            1 => s.input.push(RIn::Yomi { lb: c, rb: Jv::Strs(vec![")".into()]), ml: int(4) }),
+            _ => s.input.push(RIn::Yomi { lb: Jv::Strs(vec!["(".into()]), rb: c, ml: int(4) }),
+        }
+        s.oov.push(good_simple());
+        return Some(s);
+    }
+    let k = k - 3 * chars.len();
+    // block D: user dictionaries compiled against another (larger) system dictionary; error precedence
+    match k {
+        0..=5 => { // ids n-1, n, n+1 of the loading matrix as left / right id of a user word
+            let (nl, nr) = if k < 3 { (3, 3) } else { (2, 4) };
+            let n = [nl as i64 - 1, nl as i64, nl as i64 + 1][k % 3];
+            let mut s = rbase(rng, nl, nr, format!("rdirected:userdict:{}", k));
+            s.oov.push(good_simple());
+            s.users.push(UDicSpec { big: 6, own_pos: vec![], words: vec![(0, 0), (n.min(5), 1), (1, n.min(5))] });
+            Some(s)
+        }
+        6 => { // two user dictionaries, the second one does not fit; own POS of both
+            let mut s = rbase(rng, 3, 3, "rdirected:userdict:second".into());
+            s.oov.push(good_simple());
+            s.users.push(UDicSpec { big: 3, own_pos: vec![NEW_POS[0].map(|x| x.to_string())], words: vec![(2, 2)] });
+            s.users.push(UDicSpec { big: 5, own_pos: vec![NEW_POS[1].map(|x| x.to_string())], words: vec![(1, 1), (4, 0)] });
+            Some(s)
+        }
+        7 => { // input-text error comes before an OOV error, an inhibit error before both
+            let mut s = rbase(rng, 3, 3, "rdirected:precedence:input-before-oov".into());
+            s.input.push(RIn::Yomi { lb: Jv::Strs(vec!["(".into()]), rb: Jv::Strs(vec![")".into()]), ml: int(0) });
+            s.oov.push(ROov::Simple { pos: noun_jv(), l: int(9), r: int(0), c: int(1), mode: Jv::Absent });
+            Some(s)
+        }
+        8 => { // path-rewrite error comes before NoOOVPluginProvided
+            let mut s = rbase(rng, 3, 3, "rdirected:precedence:path-before-nooov".into());
+            s.path.push(RPath::Katakana { pos: noun_jv(), minlen: int(-1) });
+            Some(s)
+        }
+        9 => { // no provider, valid path plugin
+            let mut s = rbase(rng, 3, 3, "rdirected:precedence:nooov".into());
+            s.path.push(RPath::Katakana { pos: noun_jv(), minlen: int(1) });
+            Some(s)
+        }
+        10 => { // everything at once, all valid
+            let mut s = rbase(rng, 4, 4, "rdirected:all-plugins".into());
+            s.inh.push(vec![(1, 2)]);
+            s.input.push(RIn::Prolonged { marks: Jv::Strs(vec!["ー".into(), "〜".into()]), repl: Jv::Absent });
+            s.input.push(RIn::Yomi { lb: Jv::Strs(vec!["(".into()]), rb: Jv::Strs(vec![")".into()]), ml: int(4) });
+            s.oov.push(ROov::Regex { pos: noun_jv(), l: int(3), r: int(3), c: int(100), mode: Jv::Absent, maxlen: int(3), bnd: Jv::Str("relaxed".into()), alias: false });
+            s.oov.push(ROov::Mecab { lines: base_unk(&pos_vec(&default_pos()[0])), mode: Jv::Absent });
+            s.oov.push(good_simple());
+            s.path.push(RPath::Numeric { en: Jv::Bool(false) });
+            s.path.push(RPath::Katakana { pos: noun_jv(), minlen: int(2) });
+            s.users.push(UDicSpec { big: 4, own_pos: vec![NEW_POS[0].map(|x| x.to_string())], words: vec![(3, 3), (0, 1)] });
+            Some(s)
+        }
+        11 => { // the POS of a path-rewrite plugin exists only in a user dictionary: merged too late
+            let mut s = rbase(rng, 3, 3, "rdirected:katakana-pos-in-userdict".into());
+            s.oov.push(good_simple());
+            s.path.push(RPath::Katakana { pos: Jv::Strs(new_pos(0)), minlen: int(2) });
+            s.users.push(UDicSpec { big: 3, own_pos: vec![NEW_POS[0].map(|x| x.to_string())], words: vec![(0, 0)] });
+            Some(s)
+        }
+        _ => None,
+    }
+}
+
+pub const N_RDIRECTED: usize = 12 * N_RSHAPES + 3 * 18 + 3 * 12 + 11 + 4 * 13 + 3 * 15 + 12;
+
+fn rand_int_jv(rng: &mut Rng, n: usize, chaos: usize) -> Jv {
+    let k = rng.below(100);
+    if k < chaos { rng.pick(&int_shapes()).clone() }
+    else if k < chaos * 2 { int(*rng.pick(&boundary_vals(n)) as i128) }
+    else { int(rng.below(n) as i128) }
+}
+
+fn random_rspec(rng: &mut Rng) -> RSpec {
+    let square = rng.chance(7, 10);
+    let nl = rng.range(1, 6);
+    let nr = if square { nl } else { rng.range(1, 6) };
+    let chaos = match rng.below(10) { 0..=3 => 0, 4..=7 => 3, _ => 10 };
+    let mut s = rbase(rng, nl, nr, format!("rrandom:chaos{}", chaos));
+    let dict_pos = default_pos();
+    if rng.chance(1, 4) {
+        let np = rng.range(1, 3);
+        s.inh.push((0..np).map(|_| (if rng.below(100) < chaos { *rng.pick(&boundary_vals(nl)) } else { rng.below(nl) as i64 }, if rng.below(100) < chaos { *rng.pick(&boundary_vals(nr)) } else { rng.below(nr) as i64 })).collect());
+    }
+    let pos_jv = |rng: &mut Rng| -> Jv {
+        let k = rng.below(100);
+        if k < 75 { Jv::Strs(pos_vec(&dict_pos[rng.below(dict_pos.len())])) } else if k < 90 { Jv::Strs(new_pos(rng.below(3))) }
+        else if k < 94 { Jv::Strs(pos_vec(&dict_pos[0])[..5].to_vec()) } else if k < 97 { Jv::Null } else { Jv::Other(r#"["名詞",1]"#) }
+    };
+    let mode_jv = |rng: &mut Rng| -> Jv {
+        match rng.below(20) { 0..=7 => Jv::Absent, 8..=13 => Jv::Str("allow".into()), 14..=17 => Jv::Str("forbid".into()), 18 => Jv::Str("Allow".into()), _ => Jv::Null }
+    };
+    let usize_jv = |rng: &mut Rng, small: usize| -> Jv {
+        let k = rng.below(100);
+        if k < chaos { rng.pick(&int_shapes()).clone() } else if k < chaos * 2 { int(*rng.pick(&[U64MAX, U64MAX - 1, U64MAX - 3, U64MAX - 20, i64::MAX as i128, u32::MAX as i128, 100000, 30000])) } else { int(rng.below(small + 1) as i128) }
+    };
+    let nin = *rng.pick(&[0usize, 0, 1, 1, 2]);
+    for _ in 0..nin {
+        if rng.chance(1, 2) {
+            let mk = |rng: &mut Rng, pool: &[&str]| -> Jv { let k = rng.below(40); if k == 0 { Jv::Strs(vec![]) } else if k == 1 { Jv::Strs(vec!["ab".into()]) } else if k == 2 { Jv::Null } else { let n = rng.range(1, pool.len()); Jv::Strs(pool[..n].iter().map(|x| x.to_string()).collect()) } };
+            let lb = mk(rng, &["(", "（", "[", "《"]);
+            let rb = mk(rng, &[")", "）", "]", "》"]);
+            let ml = { let k = rng.below(100); if k < chaos { rng.pick(&int_shapes()).clone() } else if k < chaos * 2 { int(*rng.pick(&[0i128, 30000, 100000, u32::MAX as i128, U64MAX])) } else { int(rng.range(1, 40) as i128) } };
+            s.input.push(RIn::Yomi { lb, rb, ml });
+        } else {
+            let k = rng.below(30);
+            let marks = if k == 0 { Jv::Strs(vec![]) } else if k == 1 { Jv::Strs(vec!["ーー".into()]) } else if k == 2 { Jv::Str("ー".into()) } else { let pool = ["ー", "〜", "-", "~", "]", "^", "&"]; let n = rng.range(1, 5); Jv::Strs((0..n).map(|_| rng.pick(&pool).to_string()).collect()) };
+            let repl = match rng.below(12) { 0 => Jv::Null, 1 => Jv::Str("".into()), 2 => int(5), 3 => Jv::Str("ーー".into()), _ => Jv::Absent };
+            s.input.push(RIn::Prolonged { marks, repl });
+        }
+    }
+    let np = if rng.chance(1, 40) { 0 } else { rng.range(1, 3) };
+    for _ in 0..np {
+        match rng.below(5) {
+            0 | 1 => s.oov.push(ROov::Simple { pos: pos_jv(rng), l: rand_int_jv(rng, nl, chaos), r: rand_int_jv(rng, nr, chaos), c: if rng.below(100) < chaos { rng.pick(&int_shapes()).clone() } else { int(rng.below(3000) as i128 - 500) }, mode: mode_jv(rng) }),
+            2 | 3 => s.oov.push(ROov::Regex { pos: pos_jv(rng), l: rand_int_jv(rng, nl, chaos), r: rand_int_jv(rng, nr, chaos), c: if rng.below(100) < chaos { rng.pick(&int_shapes()).clone() } else { int(rng.below(3000) as i128 - 500) }, mode: mode_jv(rng),
+                maxlen: if rng.chance(1, 3) { Jv::Absent } else { usize_jv(rng, 8) },
+                bnd: match rng.below(12) { 0..=4 => Jv::Absent, 5..=7 => Jv::Str("strict".into()), 8..=10 => Jv::Str("relaxed".into()), _ => Jv::Str("Relaxed".into()) }, alias: rng.chance(1, 2) }),
+            _ => {
+                let mut g = Gen { rng, nl, nr, chaos, dict_pos: dict_pos.clone() };
+                if let Prov::Mecab { lines, .. } = (loop { let p = g.prov(); if matches!(p, Prov::Mecab { .. }) { break p; } }) {
+                    s.oov.push(ROov::Mecab { lines, mode: mode_jv(rng) });
+                }
+            }
+        }
+    }
+    let npath = *rng.pick(&[0usize, 0, 1, 1, 2]);
+    for _ in 0..npath {
+        if rng.chance(2, 3) { s.path.push(RPath::Katakana { pos: pos_jv(rng), minlen: usize_jv(rng, 5) }); }
+        else { s.path.push(RPath::Numeric { en: match rng.below(10) { 0 => int(1), 1 => Jv::Str("true".into()), 2 => Jv::Null, 3 | 4 => Jv::Bool(false), 5 => Jv::Bool(true), _ => Jv::Absent } }); }
+    }
+    if rng.chance(1, 3) {
+        let nu = rng.range(1, 2);
+        for _ in 0..nu {
+            let big = if rng.chance(1, 2) { nl.max(nr) } else { nl.max(nr) + rng.range(1, 3) };
+            let nw = rng.range(1, 3);
+            let mut words = vec![];
+            for _ in 0..nw { let a = if rng.chance(1, 3) { big } else { nl.min(nr) }; let b = if rng.chance(1, 3) { big } else { nl.min(nr) }; words.push((rng.below(a) as i64, rng.below(b) as i64)); }
+            let own_pos = if rng.chance(1, 2) { vec![NEW_POS[rng.below(3)].map(|x| x.to_string())] } else { vec![] };
+            s.users.push(UDicSpec { big, own_pos, words });
+        }
+    }
+    s
+}
+
+fn rvariant_flags() -> String {
+    let dir = crate::c07::repo_sudachi_dir();
+    let read = |p: &str| std::fs::read_to_string(format!("{}/src/{}", dir, p)).unwrap_or_default();
+    let rx = read("plugin/oov/regex_oov/mod.rs");
+    let dc = read("dic/dictionary.rs");
+    let sat = rx.contains("saturating_add(self.max_length)");
+    let udic = dc.contains("num_left()") && dc.contains("num_right()");
+    format!("{}{}", if sat { '1' } else { '0' }, if udic { '1' } else { '0' })
+}
+
+fn run_rload(run: &mut Run, ctx: &Ctx, idx: usize, rng: &mut Rng, spec: &RSpec) {
+    let dict_pos = default_pos();
+    let (nl, nr) = (spec.nl, spec.nr);
+    let rows = lexicon_rows(rng, nl.min(nr));
+    let csv = csv_of(&rows, &dict_pos);
+    let system = match build_system(csv.as_bytes(), spec.matrix.text().as_bytes()) {
+        Ok(b) => b,
+        Err(e) => { run.bump(&format!("dict-build-failed:{}", e.chars().take(30).collect::<String>())); return; }
+    };
+    ctx.wd.write("char.def", CHAR_DEF);
+    // --- user dictionaries: compiled by the real builder against a system dictionary with the same lexicon and
+    // POS but a `big` x `big` matrix, then loaded next to THIS system dictionary
+    let mut users = vec![];
+    let mut user_texts: Vec<String> = vec![];
+    for (u, ud) in spec.users.iter().enumerate() {
+        let big_m = Matrix::random(rng, ud.big, ud.big, false);
+        let big_sys = match build_system(csv.as_bytes(), big_m.text().as_bytes()) { Ok(b) => b, Err(e) => { run.bump(&format!("dict-build-failed:{}", e.chars().take(30).collect::<String>())); return; } };
+        let cfg0 = config_json(&ctx.wd, &[], &[simple_oov_json(0, 0, 0)], &[], &[]);
+        let sysdic = match load(&cfg0, big_sys, vec![]) { Ok(d) => d, Err(e) => { run.bump(&format!("benign-load-failed:{}", e.chars().take(30).collect::<String>())); return; } };
+        let mut upos = dict_pos.clone();
+        upos.extend(ud.own_pos.iter().cloned());
+        let mut urows = vec![];
+        for (j, (l, r)) in ud.words.iter().enumerate() {
+            let surf = format!("{}{}", ["ゆ", "よ", "ゃ", "ゅ"][u % 4], ["ら", "り", "る", "れ"][j % 4]);
+            // the own POS are used by the first words so that they are stored
+            let p = if j < ud.own_pos.len() { dict_pos.len() + j } else { 0 };
+            urows.push(Row::simple(&surf, *l as i32, *r as i32, 50, p));
+            user_texts.push(format!("あ{}い", surf));
+        }
+        // own POS without a word using it are not stored: give each one a word
+        for j in ud.words.len()..ud.own_pos.len() { urows.push(Row::simple(&format!("ょ{}{}", u, j), 0, 0, 50, dict_pos.len() + j)); }
+        match build_user(&sysdic, csv_of(&urows, &upos).as_bytes()) {
+            Ok(b) => users.push(b),
+            Err(e) => { run.bump(&format!("user-build-failed:{}", e.chars().take(30).collect::<String>())); return; }
+        }
+    }
+    // --- configuration
+    let mut oov_json = vec![];
+    let mut oov_wire = vec![];
+    for (i, p) in spec.oov.iter().enumerate() {
+        match p {
+            ROov::Simple { pos, l, r, c, mode } => {
+                oov_json.push(format!(r#"{{"class":"com.worksap.nlp.sudachi.SimpleOovPlugin"{}{}{}{}{}}}"#, pos.json("oovPOS"), l.json("leftId"), r.json("rightId"), c.json("cost"), mode.json("userPOS")));
+                oov_wire.push(format!("S:{}:{}:{}:{}:{}", pos.wire(), l.wire(), r.wire(), c.wire(), mode.wire()));
+            }
+            ROov::Regex { pos, l, r, c, mode, maxlen, bnd, alias } => {
+                oov_json.push(format!(r#"{{"class":"com.worksap.nlp.sudachi.RegexOovProvider","regex":"."{}{}{}{}{}{}{}}}"#, pos.json(if *alias { "oovPOS" } else { "pos" }), l.json("leftId"), r.json("rightId"), c.json("cost"), mode.json("userPOS"), maxlen.json("maxLength"), bnd.json("boundaries")));
+                oov_wire.push(format!("R:{}:{}:{}:{}:{}:{}:{}", pos.wire(), l.wire(), r.wire(), c.wire(), mode.wire(), maxlen.wire(), bnd.wire()));
+            }
+            ROov::Mecab { lines, mode } => {
+                let name = format!("unk{}.def", i);
+                let mut text = String::new();
+                for ln in lines { text.push_str(&ln.raw); text.push('\n'); }
+                ctx.wd.write(&name, &text);
+                oov_json.push(format!(r#"{{"class":"com.worksap.nlp.sudachi.MeCabOovPlugin","charDef":"char.def","unkDef":"{}"{}}}"#, name, mode.json("userPOS")));
+                oov_wire.push(format!("M:{}:{}", hex(text.as_bytes()), mode.wire()));
+            }
+        }
+    }
+    let mut in_json = vec![];
+    let mut in_wire = vec![];
+    for p in &spec.input {
+        match p {
+            RIn::Yomi { lb, rb, ml } => {
+                in_json.push(format!(r#"{{"class":"com.worksap.nlp.sudachi.IgnoreYomiganaPlugin"{}{}{}}}"#, lb.json("leftBrackets"), rb.json("rightBrackets"), ml.json("maxYomiganaLength")));
+                in_wire.push(format!("Y:{}:{}:{}", lb.wire(), rb.wire(), ml.wire()));
+            }
+            RIn::Prolonged { marks, repl } => {
+                in_json.push(format!(r#"{{"class":"com.worksap.nlp.sudachi.ProlongedSoundMarkPlugin"{}{}}}"#, marks.json("prolongedSoundMarks"), repl.json("replacementSymbol")));
+                in_wire.push(format!("P:{}:{}", marks.wire(), repl.wire()));
+            }
+        }
+    }
+    let mut path_json = vec![];
+    let mut path_wire = vec![];
+    for p in &spec.path {
+        match p {
+            RPath::Katakana { pos, minlen } => {
+                path_json.push(format!(r#"{{"class":"com.worksap.nlp.sudachi.JoinKatakanaOovPlugin"{}{}}}"#, pos.json("oovPOS"), minlen.json("minLength")));
+                path_wire.push(format!("K:{}:{}", pos.wire(), minlen.wire()));
+            }
+            RPath::Numeric { en } => {
+                path_json.push(format!(r#"{{"class":"com.worksap.nlp.sudachi.JoinNumericPlugin"{}}}"#, en.json("enableNormalize")));
+                path_wire.push(format!("N:{}", en.wire()));
+            }
+        }
+    }
+    let inh_json: Vec<String> = spec.inh.iter().map(|pairs| format!(r#"{{"class":"com.worksap.nlp.sudachi.InhibitConnectionPlugin","inhibitPair":[{}]}}"#, pairs.iter().map(|(a, b)| format!("[{},{}]", a, b)).collect::<Vec<_>>().join(","))).collect();
+    let inh_wire: Vec<String> = spec.inh.iter().map(|pairs| format!("I{}", pairs.iter().map(|(a, b)| format!("{}:{}", a, b)).collect::<Vec<_>>().join(","))).collect();
+    let cfg_json = config_json(&ctx.wd, &in_json, &oov_json, &path_json, &inh_json);
+    let udic_wire: Vec<String> = spec.users.iter().map(|u| format!("{}@{}", u.own_pos.iter().map(|p| hex_pos(p)).collect::<Vec<_>>().join(";"), u.words.iter().map(|(l, r)| format!("{}.{}", l, r)).collect::<Vec<_>>().join(","))).collect();
+    let plen = PROBE.chars().count();
+    let payload = format!("v={} w={} nl={} nr={} conn={} inh={} inp={} oov={} path={} udic={} pos={} numpos={} ymax={} plen={} cdef={}",
+        ctx.variant, ctx.variant2, nl, nr, join(spec.matrix.cells.iter(), ","), inh_wire.join(";"), in_wire.join(";"), oov_wire.join(";"), path_wire.join(";"),
+        udic_wire.join("|"), dict_pos.iter().map(|p| hex_pos(p)).collect::<Vec<_>>().join(";"), hex_pos(&dict_pos[NUMERAL]), YOMI_MAX, plen, hex(CHAR_DEF.as_bytes()));
+
+    let viol = rviolations(spec, &dict_pos);
+    run.bump(&format!("tag:{}", spec.tag.split(':').take(2).collect::<Vec<_>>().join(":")));
+    run.bump(if nl == nr { "matrix:square" } else { "matrix:non-square" });
+    for p in &spec.oov { run.bump(match p { ROov::Simple { .. } => "provider:simple", ROov::Regex { .. } => "provider:regex", ROov::Mecab { .. } => "provider:mecab" }); }
+    for p in &spec.input { run.bump(match p { RIn::Yomi { .. } => "plugin:ignore-yomigana", RIn::Prolonged { .. } => "plugin:prolonged-sound-mark" }); }
+    for p in &spec.path { run.bump(match p { RPath::Katakana { .. } => "plugin:join-katakana", RPath::Numeric { .. } => "plugin:join-numeric" }); }
+    if !spec.users.is_empty() { run.bump("user-dictionary:compiled-against-other-matrix"); }
+    for x in &viol { run.bump(&format!("requirement-violated:{}", x.key())); }
+
+    let res = catch(|| -> Result<JapaneseDictionary, SudachiError> {
+        let cfg = ConfigBuilder::from_bytes(cfg_json.as_bytes()).expect("config json").build();
+        let mut data = SudachiDicData::new(Storage::Owned(system.clone()));
+        for u in &users { data.add_user(Storage::Owned(u.clone())); }
+        JapaneseDictionary::from_cfg_storage(&cfg, data)
+    });
+    let nontrivial = !viol.is_empty() || spec.oov.len() + spec.inh.len() + spec.input.len() + spec.path.len() + spec.users.len() > 1;
+    match res {
+        Err(p) => {
+            run.bump("outcome:PANIC");
+            run.case(idx, "rload", &payload, "PANIC", nontrivial);
+            match viol.first() {
+                Some(x) => run.fail(idx, &format!("c20:load-panic:{}", x.key()), &format!("from_cfg_storage panicked ({}): {} [{}]", p.chars().take(80).collect::<String>(), x.what, spec.tag)),
+                None => run.fail(idx, "c20:load-panic:unexplained", &format!("from_cfg_storage panicked: {} [{}]", p.chars().take(120).collect::<String>(), spec.tag)),
+            }
+        }
+        Ok(Err(e)) => {
+            let k = err_kind(&e);
+            run.bump(&format!("outcome:err:{}", k));
+            run.case(idx, "rload", &payload, &format!("err:{}", k), nontrivial);
+            if viol.is_empty() && !spec.oov.is_empty() { run.bump("rejected-without-violated-requirement"); }
+        }
+        Ok(Ok(dic)) => {
+            run.bump("outcome:ok");
+            let pl = &dic.grammar().pos_list;
+            let newpos: Vec<String> = pl.iter().skip(dict_pos.len()).map(|p| hex_pos(p)).collect();
+            let ib = catch(|| { let mut ib = InputBuffer::from(PROBE); ib.build(dic.grammar()).expect("build"); ib });
+            let mut prov_out = vec![];
+            if let Ok(ib) = &ib {
+                for (i, p) in spec.oov.iter().enumerate() {
+                    let plugin = &dic.oov_provider_plugins()[i];
+                    let ask = |off: usize| -> Vec<Node> {
+                        let mut nodes: Vec<Node> = vec![];
+                        match catch(|| plugin.provide_oov(ib, off, CreatedWords::empty(), &mut nodes).map(|_| nodes)) { Ok(Ok(n)) => n, _ => vec![] }
+                    };
+                    match p {
+                        ROov::Simple { .. } => prov_out.push(format!("S:{}", ask(0).iter().map(node_tuple).collect::<Vec<_>>().join("+"))),
+                        ROov::Regex { .. } => {
+                            // parameters from a node at offset 0 when there is one; what provide_oov does at offsets 0 and 1
+                            let probe = |off: usize| -> (String, Option<Node>) {
+                                let mut nodes: Vec<Node> = vec![];
+                                match catch(|| plugin.provide_oov(ib, off, CreatedWords::empty(), &mut nodes).map(|_| nodes)) {
+                                    Err(_) => ("P".into(), None),
+                                    Ok(Err(_)) => ("E".into(), None),
+                                    Ok(Ok(n)) => match n.first() { Some(x) => (format!("{}", x.end()), Some(x.clone())), None => ("-".into(), None) },
+                                }
+                            };
+                            let (a0, n0) = probe(0);
+                            let (a1, n1) = probe(1);
+                            let params = n0.or(n1).map(|n| node_tuple(&n));
+                            prov_out.push(format!("R:{}/{}/{}", params.unwrap_or_else(|| "?".into()), a0, a1));
+                        }
+                        ROov::Mecab { .. } => {
+                            let mut parts = vec![];
+                            for (off, (_, bit)) in PROBE_CATS.iter().enumerate() {
+                                let ns: Vec<String> = ask(off).iter().map(node_tuple).collect();
+                                if !ns.is_empty() { parts.push(format!("{}={}", bit, ns.join("+"))); }
+                            }
+                            prov_out.push(format!("M:{}", parts.join(",")));
+                        }
+                    }
+                }
+            } else { prov_out.push("input-buffer-panic".into()); }
+            let cm = dic.grammar().conn_matrix();
+            let dump = catch(|| { let mut v = vec![]; for r in 0..nr { for l in 0..nl { v.push(cm.cost(l as u16, r as u16) as i64); } } v });
+            let cells = dump.clone().unwrap_or_default();
+            let ans = format!("ok npos={} new={} prov={} conn={}", pl.len(), newpos.join(";"), prov_out.join(";"), join(cells.iter(), ","));
+            run.case(idx, "rload", &payload, &ans, nontrivial);
+            // ---- oracle: accepted although a requirement is violated (an ill-typed or out-of-range value)
+            for x in &viol {
+                if x.class == "overflow" { continue; } // a usize that is too large to be added to an offset: judged by the analysis below
+                run.fail(idx, &format!("c20:accepted:{}", x.key()), &format!("configuration accepted although {} [{}]", x.what, spec.tag));
+            }
+            if dump.is_err() || cm.num_left() != nl || cm.num_right() != nr {
+                run.fail(idx, "c20:matrix:dump", "matrix of the loaded dictionary cannot be read back in its own range");
+            } else {
+                let mut want: Vec<i64> = spec.matrix.cells.iter().map(|&c| c as i64).collect();
+                for pairs in &spec.inh { for (a, b) in pairs { if *a >= 0 && (*a as usize) < nl && *b >= 0 && (*b as usize) < nr { want[*b as usize * nl + *a as usize] = 32767; } } }
+                if want != cells { run.fail(idx, "c20:wrong-cell:in-range-pairs", &format!("matrix after load differs from 'exactly the inhibited cells are 32767' [{}]", spec.tag)); }
+            }
+            // ---- oracle: analysis (texts for the providers, the input-text / path-rewrite plugins and every user word)
+            let mut extra = vec!["漢(かな)字あーー〜〜い".to_string(), "アイウあ12三ア".to_string()];
+            extra.extend(user_texts.iter().cloned());
+            analysis_oracle(run, idx, rng, &dic, nl, nr, &viol, &spec.tag, &extra);
+        }
+    }
+}
+
 pub fn run(run: &mut Run) {
     run.rule = "load: directed = every value of {-1,0,n-1,n,n+1,32767,32768,65535,65536} for leftId/rightId/cost of Simple, Regex, one unk.def line \
 and both members of an inhibit pair on 3x3, 1x1, 2x4, 4x2 matrices; POS existing/new/arity 5/arity 7 x allow/forbid/default x provider; hand-written stacks \
@@ -756,8 +1479,8 @@ and both members of an inhibit pair on 3x3, 1x1, 2x4, 4x2 matrices; POS existing
 inhibit plugins over 1..6 x 1..6 matrices with 0/4/15 % boundary values, optional user dictionaries. Every accepted configuration tokenises three texts that \
 make every provider fire. lat: real Lattice + ConnectionMatrix over random candidate nodes (ids in and out of range). non-trivial = a requirement is violated \
 or more than one plugin is configured; distinct by payload".into();
-    let ctx = Ctx { wd: Workdir::new("c20"), variant: variant_flags() };
-    run.extra.insert("variant".into(), serde_json::json!(ctx.variant));
+    let ctx = Ctx { wd: Workdir::new("c20"), variant: variant_flags(), variant2: rvariant_flags() };
+    run.extra.insert("variant".into(), serde_json::json!(format!("{}+{}", ctx.variant, ctx.variant2)));
     let n = run.opts.count;
     // one case in five beyond the directed block is a lattice case
     for idx in 0..n {
@@ -765,6 +1488,11 @@ or more than one plugin is configured; distinct by payload".into();
         let mut rng = Rng::for_case(run.opts.seed, idx);
         if idx < N_DIRECTED {
             if let Some(spec) = directed(idx, &mut rng) { run_load(run, &ctx, idx, &mut rng, &spec); }
+        } else if idx < N_DIRECTED + N_RDIRECTED {
+            if let Some(spec) = rdirected(idx - N_DIRECTED, &mut rng) { run_rload(run, &ctx, idx, &mut rng, &spec); }
+        } else if idx % 5 == 1 {
+            let spec = random_rspec(&mut rng);
+            run_rload(run, &ctx, idx, &mut rng, &spec);
         } else if idx % 5 == 4 {
             run_lat(run, idx, &mut rng);
         } else {
